@@ -20,6 +20,7 @@ type corruption struct {
 	Kind string // see applyCorruption
 	File string
 	Pos  string // first | middle | last | ""
+	Via  string // "pkg": a file corruption of the library form, applied before the case is turned into its command line
 }
 
 // catalogue lists, per command form, only conditions gofasta itself documents or checks.
@@ -28,69 +29,81 @@ func catalogue(form string) []corruption {
 	pos := []string{"first", "middle", "last"}
 	fasta := func(file string) {
 		for _, p := range pos {
-			out = append(out, corruption{"short_row", file, p}, corruption{"long_row", file, p}, corruption{"bad_symbol", file, p})
+			out = append(out, corruption{"short_row", file, p, ""}, corruption{"long_row", file, p, ""}, corruption{"bad_symbol", file, p, ""})
 		}
-		out = append(out, corruption{"empty_file", file, ""}, corruption{"no_leading_header", file, ""})
+		out = append(out, corruption{"empty_file", file, "", ""}, corruption{"no_leading_header", file, "", ""})
 	}
 	samC := func() {
-		out = append(out, corruption{"empty_file", "sam", ""})
+		out = append(out, corruption{"empty_file", "sam", "", ""})
 		for _, p := range pos {
-			out = append(out, corruption{"sam_missing_fields", "sam", p})
+			out = append(out, corruption{"sam_missing_fields", "sam", p, ""})
 		}
 	}
 	switch form {
 	case "toma":
 		samC()
-		out = append(out, corruption{"sam_no_header", "sam", ""},
-			corruption{"window_start_zero", "", ""}, corruption{"window_start_beyond", "", ""}, corruption{"window_end_beyond", "", ""}, corruption{"window_start_gt_end", "", ""})
+		out = append(out, corruption{"sam_no_header", "sam", "", ""},
+			corruption{"window_start_zero", "", "", ""}, corruption{"window_start_beyond", "", "", ""}, corruption{"window_end_beyond", "", "", ""}, corruption{"window_start_gt_end", "", "", ""})
 	case "topa-stdout", "topa-dir":
 		samC()
-		out = append(out, corruption{"empty_file", "ref", ""}, corruption{"two_records", "ref", ""}, corruption{"bad_symbol", "ref", "first"},
-			corruption{"window_start_beyond", "", ""}, corruption{"window_end_beyond", "", ""}, corruption{"window_start_gt_end", "", ""})
+		out = append(out, corruption{"empty_file", "ref", "", ""}, corruption{"two_records", "ref", "", ""}, corruption{"bad_symbol", "ref", "first", ""},
+			corruption{"window_start_beyond", "", "", ""}, corruption{"window_end_beyond", "", "", ""}, corruption{"window_start_gt_end", "", "", ""})
 	case "samvariants":
 		samC()
-		out = append(out, corruption{"empty_file", "ref", ""}, corruption{"two_records", "ref", ""}, corruption{"bad_symbol", "ref", "first"})
+		out = append(out, corruption{"empty_file", "ref", "", ""}, corruption{"two_records", "ref", "", ""}, corruption{"bad_symbol", "ref", "first", ""})
 	case "variants", "variants-stdin":
 		fasta("msa")
-		out = append(out, corruption{"anno_suffix_unknown", "", ""})
+		out = append(out, corruption{"anno_suffix_unknown", "", "", ""})
 	case "variants-annoref":
 		fasta("msa")
-		out = append(out, corruption{"anno_suffix_unknown", "", ""}, corruption{"ref_width", "msa", ""}, corruption{"ref_width", "msa", "narrow"})
+		out = append(out, corruption{"anno_suffix_unknown", "", "", ""}, corruption{"ref_width", "msa", "", ""}, corruption{"ref_width", "msa", "narrow", ""}, corruption{"two_records", "anno", "", ""})
 	case "snps", "snps-agg", "updownlist":
 		fasta("query")
-		out = append(out, corruption{"empty_file", "ref", ""}, corruption{"bad_symbol", "ref", "first"}, corruption{"ref_width", "ref", ""})
-		out = append(out, corruption{"two_records", "ref", ""})
+		out = append(out, corruption{"empty_file", "ref", "", ""}, corruption{"bad_symbol", "ref", "first", ""}, corruption{"ref_width", "ref", "", ""})
+		out = append(out, corruption{"two_records", "ref", "", ""})
 	case "closest", "closestn":
 		fasta("query")
 		fasta("target")
-		out = append(out, corruption{"width_mismatch", "target", ""}, corruption{"width_mismatch", "query", ""})
+		out = append(out, corruption{"width_mismatch", "target", "", ""}, corruption{"width_mismatch", "query", "", ""}, corruption{"width_mismatch", "target", "narrow", ""}, corruption{"width_mismatch", "query", "narrow", ""})
 	case "topranking":
 		fasta("query")
 		fasta("target")
-		out = append(out, corruption{"empty_file", "ref", ""}, corruption{"two_records", "ref", ""}, corruption{"ref_width", "ref", ""}, corruption{"no_size_or_dist", "", ""})
+		out = append(out, corruption{"empty_file", "ref", "", ""}, corruption{"two_records", "ref", "", ""}, corruption{"ref_width", "ref", "", ""}, corruption{"no_size_or_dist", "", "", ""})
 	case "topranking-csv":
 		for _, f := range []string{"query", "target"} {
-			out = append(out, corruption{"empty_file", f, ""}, corruption{"csv_bad_header", f, ""})
+			out = append(out, corruption{"empty_file", f, "", ""}, corruption{"csv_bad_header", f, "", ""})
 			for _, p := range pos {
-				out = append(out, corruption{"csv_bad_range", f, p}, corruption{"csv_missing_field", f, p})
+				out = append(out, corruption{"csv_bad_range", f, p, ""}, corruption{"csv_missing_field", f, p, ""})
 			}
 		}
-		out = append(out, corruption{"no_size_or_dist", "", ""})
+		out = append(out, corruption{"no_size_or_dist", "", "", ""})
 	// the same commands through the real cobra command line (cmd/ + gfio), where some validations live
 	case "cli-variants", "cli-samvariants":
-		out = append(out, corruption{"cli_anno_suffix", "", ""}, corruption{"cli_missing_file", "", ""}, corruption{"empty_file", "cli", ""})
+		out = append(out, corruption{"cli_anno_suffix", "", "", ""}, corruption{"cli_missing_file", "", "", ""}, corruption{"empty_file", "cli", "", ""})
 	case "cli-topranking":
-		out = append(out, corruption{"cli_query_suffix", "", ""}, corruption{"cli_target_suffix", "", ""}, corruption{"cli_no_reference", "", ""}, corruption{"cli_no_size", "", ""}, corruption{"cli_missing_file", "", ""})
+		out = append(out, corruption{"cli_query_suffix", "", "", ""}, corruption{"cli_target_suffix", "", "", ""}, corruption{"cli_no_reference", "", "", ""}, corruption{"cli_no_size", "", "", ""}, corruption{"cli_missing_file", "", "", ""})
 	case "cli-toma":
-		out = append(out, corruption{"cli_window_start_gt_end", "", ""}, corruption{"cli_old_and_new_flags", "", ""}, corruption{"cli_missing_file", "", ""}, corruption{"empty_file", "cli", ""},
-			corruption{"cli_window_start_zero", "", ""}, corruption{"cli_window_end_zero", "", ""}, corruption{"cli_window_end_beyond", "", ""})
+		out = append(out, corruption{"cli_window_start_gt_end", "", "", ""}, corruption{"cli_old_and_new_flags", "", "", ""}, corruption{"cli_missing_file", "", "", ""}, corruption{"empty_file", "cli", "", ""},
+			corruption{"cli_window_start_zero", "", "", ""}, corruption{"cli_window_end_zero", "", "", ""}, corruption{"cli_window_end_beyond", "", "", ""})
 	case "indels":
 		samC()
 	case "cli-indels":
-		out = append(out, corruption{"cli_missing_file", "", ""}, corruption{"empty_file", "cli", ""})
+		out = append(out, corruption{"cli_missing_file", "", "", ""}, corruption{"empty_file", "cli", "", ""})
+	case "cli-snps", "cli-closest", "cli-closestn", "cli-updownlist":
+		out = append(out, corruption{Kind: "cli_missing_file"})
 	case "cli-topa-stdout":
-		out = append(out, corruption{"cli_window_start_gt_end", "", ""}, corruption{"cli_missing_file", "", ""}, corruption{"empty_file", "cli", ""},
-			corruption{"cli_window_start_zero", "", ""}, corruption{"cli_window_end_zero", "", ""}, corruption{"cli_window_end_beyond", "", ""})
+		out = append(out, corruption{"cli_window_start_gt_end", "", "", ""}, corruption{"cli_missing_file", "", "", ""}, corruption{"empty_file", "cli", "", ""},
+			corruption{"cli_window_start_zero", "", "", ""}, corruption{"cli_window_end_zero", "", "", ""}, corruption{"cli_window_end_beyond", "", "", ""})
+	}
+	if strings.HasPrefix(form, "cli-") {
+		// every corruption of an input file of the library form, through the real command line as well (the command
+		// layer opens the files, picks readers by file name and forwards the options)
+		for _, k := range catalogue(strings.TrimPrefix(form, "cli-")) {
+			if k.File != "" {
+				k.Via = "pkg"
+				out = append(out, k)
+			}
+		}
 	}
 	return out
 }
@@ -104,7 +117,7 @@ func argIndex(a []string, flag string) int {
 	return -1
 }
 
-var c18Forms = append(append([]string{}, allCmds...), "topranking-csv", "cli-variants", "cli-samvariants", "cli-topranking", "cli-toma", "cli-topa-stdout", "indels", "cli-indels")
+var c18Forms = append(append([]string{}, allCmds...), "topranking-csv", "cli-variants", "cli-samvariants", "cli-topranking", "cli-toma", "cli-topa-stdout", "indels", "cli-indels", "cli-snps", "cli-closest", "cli-closestn", "cli-updownlist")
 
 type fastaRec struct {
 	head string
@@ -206,6 +219,25 @@ func applyCorruption(c *Case, k corruption, r *Rand) *Case {
 		}
 		out.Files[k.File] = strings.TrimPrefix(text, recs[0].head+nl)
 	case "two_records":
+		if k.File == "anno" {
+			// the reference comes from the annotation: a gff whose ##FASTA section holds two sequences
+			i := strings.Index(text, "##FASTA")
+			if c.Opts.AnnoSuffix != "gff" || i < 0 {
+				return nil
+			}
+			recs, _ := parseFasta(text[i:])
+			if len(recs) != 1 {
+				return nil
+			}
+			extra := ">" + r.Pick("ref2", "MN908947.3", "a") + "\n" + strings.Join(recs[0].seq, "") + "\n"
+			if r.Bool() {
+				out.Files[k.File] = strings.TrimSuffix(text, "\n") + "\n" + extra
+			} else {
+				j := i + strings.Index(text[i:], ">")
+				out.Files[k.File] = text[:j] + extra + text[j:]
+			}
+			break
+		}
 		out.Files[k.File] = text + ">ref2\n" + strings.Repeat("A", refLen()) + "\n"
 	case "ref_width":
 		if k.File == "msa" {
@@ -239,7 +271,14 @@ func applyCorruption(c *Case, k corruption, r *Rand) *Case {
 			if len(recs[i].seq) == 0 {
 				return nil
 			}
-			recs[i].seq[len(recs[i].seq)-1] += "A"
+			if last := len(recs[i].seq) - 1; k.Pos == "narrow" {
+				if len(recs[i].seq[last]) == 0 || len(strings.Join(recs[i].seq, "")) < 2 {
+					return nil
+				}
+				recs[i].seq[last] = recs[i].seq[last][:len(recs[i].seq[last])-1]
+			} else {
+				recs[i].seq[last] += "A"
+			}
 		}
 		out.Files[k.File] = renderFasta(recs, nl)
 	case "sam_no_header":
@@ -336,11 +375,16 @@ func applyCorruption(c *Case, k corruption, r *Rand) *Case {
 		out.Opts.Args = a
 	case "cli_missing_file":
 		a := append([]string(nil), c.Opts.Args...)
+		found := false
 		for i := range a {
 			if _, ok := c.Files[a[i]]; ok {
 				delete(out.Files, a[i])
+				found = true
 				break
 			}
+		}
+		if !found {
+			return nil
 		}
 		out.Opts.Args = a
 	case "cli_no_reference":
@@ -396,11 +440,17 @@ func applyCorruption(c *Case, k corruption, r *Rand) *Case {
 	}
 	if k.Kind == "empty_file" && k.File == "cli" {
 		delete(out.Files, "cli")
-		for _, x := range c.Opts.Args {
+		// the command's main input (piped or named) is empty
+		found := false
+		for _, x := range []string{"stdin", "in.sam", "msa.fasta", "query.fasta", "query.fa", "query.csv"} {
 			if _, ok := c.Files[x]; ok {
 				out.Files[x] = ""
+				found = true
 				break
 			}
+		}
+		if !found {
+			return nil
 		}
 	}
 	return &out
@@ -506,6 +556,27 @@ func genC18(r *Rand, tier string, ord int) *Trial {
 		base, ok = cliCase(pk)
 		if !ok {
 			return nil
+		}
+		if k.Via == "pkg" {
+			t := &Trial{Kind: form + "/" + k.Kind, Case: *base, Params: map[string]string{"corruption": k.Kind, "file": k.File, "pos": k.Pos, "form": form}}
+			var cor *Case
+			if pc := applyCorruption(pk, k, r); pc != nil {
+				cor, _ = cliCase(pc)
+			}
+			if cor == nil {
+				t.Params["inapplicable"] = "1"
+				return t
+			}
+			n := 6
+			if tier == "thorough" {
+				n = 12
+			}
+			b := P0()
+			b.Explicit = true
+			t.Runs = append([]RunCfg{b, b}, genRunCfgs(r, n)...)
+			cb, _ := json.Marshal(cor)
+			t.Params["corrupted"] = string(cb)
+			return t
 		}
 	} else {
 		base = genCmdCase(r, form, caseSize{min3: true})
